@@ -179,12 +179,17 @@ class Machine:
         self.check_level = check_level
         self.counts = {}
         self.keep = []       # keep real objects alive (id() stability)
+        self.kept = {}       # id -> (real, keys(), values(), items()) views
 
     # -- construction of values from specs
     def register(self, id_, real, mc):
         self.reg[id_] = (real, mc)
         self.by_real[id(real)] = id_
         self.keep.append(real)
+        try:
+            self.kept[id_] = (real, real.keys(), real.values(), real.items())
+        except Exception:
+            self.kept.pop(id_, None)
 
     def build(self, spec):
         """-> (real_value, model_value)"""
@@ -346,40 +351,45 @@ class Machine:
                    slice(None, None, 2), slice(n // 2, n)):
             if not self._eqpairs(real[sl], exp[sl]):
                 bad("m[%r]" % (sl,), real[sl])
-        # the three views
-        kv, vv, iv = real.keys(), real.values(), real.items()
-        if list(kv) != [k for k, _ in exp]:
-            bad("keys()", list(kv))
-        lv = list(vv)
-        if not (len(lv) == n and all(self.same(a, b[1])
-                                     for a, b in zip(lv, exp))):
-            bad("values()", lv)
-        if not self._eqpairs(list(iv), exp):
-            bad("items()", list(iv))
-        if not (len(kv) == len(vv) == len(iv) == n):
-            bad("len(views)", (len(kv), len(vv), len(iv)))
-        for i in range(-n, n):
-            if kv[i] != exp[i][0]:
-                bad("keys()[%d]" % i, kv[i])
-            if not self.same(vv[i], exp[i][1]):
-                bad("values()[%d]" % i, vv[i])
-            g = iv[i]
-            if not (g[0] == exp[i][0] and self.same(g[1], exp[i][1])):
-                bad("items()[%d]" % i, g)
-        seen = set()
-        for i, (k, v) in enumerate(exp):
-            if k not in seen:
-                seen.add(k)
-                if kv.index(k) != i:
-                    bad("keys().index(%r)" % k, kv.index(k))
-            if k not in kv:
-                bad("%r in keys()" % k, False)
-            if not isinstance(v, MC):
-                rv = lv[i]      # the real value at that place
-                if rv not in vv:
-                    bad("%r in values()" % (v,), False)
-                if (k, rv) not in iv:
-                    bad("(%r, %r) in items()" % (k, v), False)
+        # the three views: obtained now, and the ones obtained when the
+        # container was created and kept since (views are live objects)
+        def views(kv, vv, iv, w):
+            if list(kv) != [k for k, _ in exp]:
+                bad(w + "keys()", list(kv))
+            lv = list(vv)
+            if not (len(lv) == n and all(self.same(a, b[1])
+                                         for a, b in zip(lv, exp))):
+                bad(w + "values()", lv)
+            if not self._eqpairs(list(iv), exp):
+                bad(w + "items()", list(iv))
+            if not (len(kv) == len(vv) == len(iv) == n):
+                bad(w + "len(views)", (len(kv), len(vv), len(iv)))
+            for i in range(-n, n):
+                if kv[i] != exp[i][0]:
+                    bad(w + "keys()[%d]" % i, kv[i])
+                if not self.same(vv[i], exp[i][1]):
+                    bad(w + "values()[%d]" % i, vv[i])
+                g = iv[i]
+                if not (g[0] == exp[i][0] and self.same(g[1], exp[i][1])):
+                    bad(w + "items()[%d]" % i, g)
+            seen = set()
+            for i, (k, v) in enumerate(exp):
+                if k not in seen:
+                    seen.add(k)
+                    if kv.index(k) != i:
+                        bad(w + "keys().index(%r)" % k, kv.index(k))
+                if k not in kv:
+                    bad(w + "%r in keys()" % k, False)
+                if not isinstance(v, MC):
+                    rv = lv[i]      # the real value at that place
+                    if rv not in vv:
+                        bad(w + "%r in values()" % (v,), False)
+                    if (k, rv) not in iv:
+                        bad(w + "(%r, %r) in items()" % (k, v), False)
+        views(real.keys(), real.values(), real.items(), "")
+        kept = self.kept.get(mc.id)
+        if kept is not None and kept[0] is real:
+            views(kept[1], kept[2], kept[3], "kept since creation: ")
         # mapping side
         present = set(k for k, _ in exp)
         for k in KEYS + ["zz"]:
